@@ -273,7 +273,7 @@ MANIFEST_TEXT['C13'] = {'technique': 'runtime monitoring: lock-step execution of
 PROPS['C20'] = {
     'level': 'exploration',
     'runs': [{'name': 'tsan', 'flavour': 'tsan', 'driver': 'drv_c20', 'shards': 6, 'log_scan': 'tsan', 'timeout': 1800, 'timeout_thorough': 10800}],
-    'require': {'threads.digest_equal_to_solo': 60, 'overlap.total': 20000, 'overlap.crypt+decode': 50, 'overlap.encode+encode': 50, 'overlap.create+free': 50, 'overlap.decode+decode': 50,
+    'require': {'threads.digest_equal_to_solo': 60, 'overlap.total': 200000, 'overlap.crypt+decode': 50, 'overlap.encode+encode': 50, 'overlap.create+free': 50, 'overlap.decode+decode': 50,
                 'rounds.8_threads': 3, 'rounds.16_threads': 3},
 }
 MANIFEST_TEXT['C20'] = {'technique': 'runtime monitoring: ThreadSanitizer build (library + harness) under multi-threaded scripted workloads with yields injected at the dependency callbacks; serial-vs-concurrent transcript equality',
